@@ -130,7 +130,9 @@ func kvWritesIn(f *ssa.Function) []kvWrite {
 			if fr, _, ok := eng.LoadedField(x.Map); ok && isKVState(fr) {
 				out = append(out, kvWrite{Fn: f, In: in, Kind: "insert", Loc: locOf(fr), Map: x.Map, Key: x.Key, Val: x.Value, Field: fr})
 			}
-		case *ssa.Call:
+		case ssa.CallInstruction:
+			// (deferred builtins included: they run on every way out, the
+			// failure paths too)
 			if args, ok := eng.BuiltinCall(in, "delete"); ok {
 				if fr, _, ok := eng.LoadedField(args[0]); ok && isKVState(fr) {
 					out = append(out, kvWrite{Fn: f, In: in, Kind: "delete", Loc: locOf(fr), Map: args[0], Key: args[1], Field: fr})
